@@ -178,6 +178,60 @@ Definition len_of (s : state) (v : val) : option Z :=
   end.
 Definition as_list (v : val) : list val := match v with VList l => l | _ => [] end.
 
+(* ---- string primitives of the tag parser *)
+(* strings.Replace(s, old, new, 1) *)
+Fixpoint replace_first (old new s : string) : string :=
+  if negb (String.eqb old "") && prefix old s
+  then new ++ substring (String.length old) (String.length s - String.length old) s
+  else match s with
+       | EmptyString => EmptyString
+       | String c r => String c (replace_first old new r)
+       end.
+(* reflect.StructTag.Lookup (values without escape sequences: strconv.Unquote is the identity on
+   the text between the quotes) *)
+Fixpoint skip_blanks (s : string) : string :=
+  match s with String " "%char r => skip_blanks r | _ => s end.
+Definition name_char (c : ascii) : bool :=
+  let n := nat_of_ascii c in
+  Nat.ltb 32 n && negb (Nat.eqb n 58) && negb (Nat.eqb n 34) && negb (Nat.eqb n 127).
+Fixpoint take_name (s : string) : string * string :=
+  match s with
+  | String c r => if name_char c then let (n, rest) := take_name r in (String c n, rest) else ("", s)
+  | EmptyString => ("", "")
+  end.
+Fixpoint take_quoted (s : string) : option (string * string) :=
+  match s with
+  | EmptyString => None
+  | String c r =>
+      if Ascii.eqb c """"%char then Some ("", r)
+      else match take_quoted r with
+           | Some (v, rest) => Some (String c v, rest)
+           | None => None
+           end
+  end.
+Fixpoint tag_lookup (fuel : nat) (key tag : string) : option string :=
+  match fuel with
+  | O => None
+  | S f =>
+      let t := skip_blanks tag in
+      match t with
+      | EmptyString => None
+      | _ =>
+          let (name, r) := take_name t in
+          match name, r with
+          | EmptyString, _ => None
+          | _, String c1 (String c2 r2) =>
+              if Ascii.eqb c1 ":"%char && Ascii.eqb c2 """"%char
+              then match take_quoted r2 with
+                   | Some (v, r3) => if String.eqb name key then Some v else tag_lookup f key r3
+                   | None => None
+                   end
+              else None
+          | _, _ => None
+          end
+      end
+  end.
+
 (* generic insertion sort with a stateful "x goes before y" test *)
 Section ISort.
   Context {S : Type}.
@@ -377,6 +431,32 @@ Section Run.
                 end
               else if String.eqb name "strconv.Itoa" then
                 match vs with [VInt z] => Some (VStr (itoa_z z), s1) | _ => None end
+              else if String.eqb name "reflect.Lookup" then
+                match vs with
+                | [VStr tag; VStr key] =>
+                    match tag_lookup (S (String.length tag)) key tag with
+                    | Some v => Some (VTup [VStr v; VBool true], s1)
+                    | None => Some (VTup [VStr ""; VBool false], s1)
+                    end
+                | _ => None
+                end
+              else if String.eqb name "strings.ReplaceFirst" then
+                match vs with [VStr a; VStr old; VStr new] => Some (VStr (replace_first old new a), s1) | _ => None end
+              else if String.eqb name "strings.SplitComma" then
+                match vs with [VStr a] => Some (VList (map VStr (split_comma a)), s1) | _ => None end
+              else if String.eqb name "strconv.Quote" then
+                match vs with [VStr a] => Some (VStr (String """"%char a ++ String """"%char ""), s1) | _ => None end
+              else if String.eqb name "strconv.Atoi" then
+                match vs with
+                | [VStr a] =>
+                    match atoi a with
+                    | Some z => if (Z.leb (- two63) z && Z.ltb z two63)%bool
+                                then Some (VTup [VInt z; VNil], s1)
+                                else Some (VTup [VInt 0; VRec [("error", VStr "out of range")]], s1)
+                    | None => Some (VTup [VInt 0; VRec [("error", VStr "syntax")]], s1)
+                    end
+                | _ => None
+                end
               else if String.eqb name "prim.compare" then
                 match vs with
                 | [VInt a; VInt b] => Some (VInt (if (a <? b)%Z then (-1) else if (a =? b)%Z then 0 else 1)%Z, s1)
@@ -710,6 +790,70 @@ Section Drive.
     | _ => GStuck
     end.
 End Drive.
+
+(* ---- the tag parser: sortFieldDescFromTag on the raw struct tag of one field *)
+Inductive tres := TErr | TOk (tags : list (string * Z * string)) | TStuck.
+Definition raw_tag_text (tl : struct_tag) : string :=
+  String.concat " " (map (fun kv => fst kv ++ String ":"%char (String """"%char (snd kv ++ String """"%char ""))) tl).
+Section DriveTags.
+  Variable prog : program.
+  Fixpoint read_sfds (ps : list val) (s : state) : option (list (string * Z * string)) :=
+    match ps with
+    | [] => Some []
+    | VPtr l :: r =>
+        match deref s l with
+        | VRec fs =>
+            match lookup "SortTypeName" fs, lookup "Priority" fs, lookup "CustomAccessor" fs, read_sfds r s with
+            | Some (VStr n), Some (VInt p), Some (VStr a), Some rest => Some ((n, p, a) :: rest)
+            | _, _, _, _ => None
+            end
+        | _ => None
+        end
+    | _ => None
+    end.
+  Definition run_tagparser (tl : struct_tag) : tres :=
+    let fld := VRec [("Name()", VStr "F"); ("Type()", VRec [("String()", VStr "int")])] in
+    match call prog "sortFieldDescFromTag" [fld; VStr (raw_tag_text tl)] {| st_env := []; st_heap := [] |} with
+    | Some (VTup [res; err], s) =>
+        if val_eqb err VNil
+        then match read_sfds (as_list res) s with Some t => TOk t | None => TStuck end
+        else TErr
+    | _ => TStuck
+    end.
+End DriveTags.
+(* the model: GSortTagModel; Go's Atoi additionally refuses what does not fit an int64 *)
+Definition model_tags (tl : struct_tag) : tres :=
+  match parse_all (gsort_options tl) with
+  | Some ts => if forallb (fun t => (Z.leb (- two63) (tg_prio t) && Z.ltb (tg_prio t) two63)%bool) ts
+               then TOk (map (fun t => (tg_sorter t, tg_prio t, tg_acc t)) ts) else TErr
+  | None => TErr
+  end.
+Fixpoint triples_eqb (a b : list (string * Z * string)) : bool :=
+  match a, b with
+  | [], [] => true
+  | (n1, p1, a1) :: r1, (n2, p2, a2) :: r2 =>
+      String.eqb n1 n2 && Z.eqb p1 p2 && String.eqb a1 a2 && triples_eqb r1 r2
+  | _, _ => false
+  end.
+Definition tres_eqb (a b : tres) : bool :=
+  match a, b with
+  | TErr, TErr => true
+  | TOk x, TOk y => triples_eqb x y
+  | _, _ => false
+  end.
+(* struct tags: every list of 0..3 pairs over these keys and option texts *)
+Definition tag_values : list string :=
+  ["A,1"; "B,2,String()"; "*C"; "A,-3"; "B,+7"; "C,007"; "A,one"; "B,"; "C,1,x,y"; "A,1 "; ""; "A,,String()";
+   "B,9223372036854775807"; "B,9223372036854775808"; "A,-9223372036854775808"; "A,5"; "B"].
+Definition tag_keys : list string := ["gsort"; "gsort"; "gsort"; "json"; "xgsort"].
+Definition tag_family : list struct_tag :=
+  let pairs := flat_map (fun k => map (fun v => (k, v)) tag_values) tag_keys in
+  ([] :: map (fun p => [p]) pairs
+   ++ flat_map (fun p => map (fun q => [p; q]) (firstn 40 pairs)) (firstn 60 pairs)
+   ++ flat_map (fun p => map (fun q => [("gsort", "A,1,String()"); p; q]) (firstn 12 pairs)) (firstn 30 pairs))%list.
+Definition tags_agree_on (prog : program) (tl : struct_tag) : bool :=
+  tres_eqb (run_tagparser prog tl) (model_tags tl).
+Definition tags_agree (prog : program) : bool := forallb (tags_agree_on prog) tag_family.
 
 (* what the Coq model of the generator says *)
 Definition model_result (ty : string) (fs : list fieldT) : gres :=
